@@ -54,6 +54,11 @@ def lsb_addr(sig):
 def gen_signal(rng, name, nbytes, used, o):
     for _ in range(15):
         size = F.rand_size(rng, min(8 * nbytes, o.get("maxwidth", 64)))
+        force_float = False
+        if o.get("floats", True) and o.get("maxwidth", 64) >= 32 and nbytes >= 4 and rng.random() < 0.12:
+            # float32 / float64 signals are rare among random widths: ask for them explicitly
+            size = 64 if (nbytes >= 8 and rng.random() < 0.5) else 32
+            force_float = True
         little = rng.random() < 0.5
         if o.get("intel_only"):
             little = True
@@ -62,7 +67,7 @@ def gen_signal(rng, name, nbytes, used, o):
         if any(x < 0 or x >= 8 * nbytes for x in a) or set(a) & used:
             continue
         used |= set(a)
-        is_float = o.get("floats", True) and size in (32, 64) and rng.random() < 0.4
+        is_float = o.get("floats", True) and size in (32, 64) and (force_float or rng.random() < 0.4)
         signed = (not is_float) and rng.random() < 0.4
         fac = rng.choice(NUMBERS)
         off = rng.choice(OFFSETS)
@@ -126,6 +131,15 @@ def gen_net(rng, opts=None):
                     mx["values_names"] = {str(g): "grp%d_%d" % (k, g) for g in sorted({s["mux"] for s in sigs if isinstance(s["mux"], int)})}
                     mx["values"] = dict(mx["values_names"])
                     mx["comment"] = ""
+        if o.get("floats", True) and not sigs and nbytes >= 8 and rng.random() < 0.15:
+            # a float64 needs eight whole bytes: place it first
+            little = rng.random() < 0.5 or bool(o.get("intel_only"))
+            s64 = gen_signal(rng, "dbl%d" % k, nbytes, used, dict(o, maxwidth=1))
+            if s64:
+                used.clear()
+                s64.update({"size": 64, "little": little, "anchor": 0 if little else 7, "float": True, "signed": False, "values": {}, "min": None, "max": None})
+                used |= set(addrs(little, s64["anchor"], 64))
+                sigs.append(s64)
         if o.get("extmux") and not sigs and nbytes >= 2 and rng.random() < 0.3:
             # extended multiplexing: mxa selects {mxb (itself a multiplexer), ...}; mxb selects the x signals by value ranges
             mxa = gen_signal(rng, "mxa%d" % k, nbytes, used, dict(o, maxwidth=3, floats=False))
